@@ -481,6 +481,27 @@ func init() {
 					w.probe("dependant-dropped-at-unmap")
 				}
 			}
+			for i, o := range w.X.B64 {
+				uses := false
+				for _, x := range o.Regions {
+					if x == ri {
+						uses = true
+					}
+				}
+				if !uses {
+					continue
+				}
+				if mask>>uint(8+i)&1 == 1 || mask>>60&1 == 1 {
+					w.out64(i)
+					if !w.try("C08", func() { o.BM.CloneCopyOnWriteContainers() }) {
+						o.Regions = nil
+						w.probe("detached64-before-unmap")
+					}
+				} else {
+					w.rebuild64(i)
+					w.probe("dependant64-dropped-at-unmap")
+				}
+			}
 			w.X.dropRegion(ri)
 			w.Regs[ri].Unmap()
 			w.St.Faults["region-unmapped"]++
